@@ -168,7 +168,7 @@ impl Reader {
                         return Err(format::Error::Malformed);
                     }
                 }
-                if !(0 <= t.num && t.num <= self.header.hr.num_items - t.start) {
+                if !(0 <= t.start && 0 <= t.num && t.num <= self.header.hr.num_items - t.start) {
                     error!("invalid item_type num: must be in range 0 to num_items - start + 1, item_type={} type_id={} start={} num={}", i, t.type_id, t.start, t.num);
                     return Err(format::Error::Malformed);
                 }
